@@ -1185,6 +1185,14 @@ func checkOneFrame(w *World, r *Report, pfx string) {
 			for _, ev := range p.Events {
 				if o := w.Comm().byIn[ev.In]; o != nil && o.Kind == "send" && o.Class.has("Bar.frameCh") {
 					c++
+					continue
+				}
+				// the frame is complete when it is handed over: flush reads its error, rows and shutdown
+				// counter from another goroutine as soon as it has received it
+				if st, ok := ev.In.(*ssa.Store); ok && c > 0 {
+					if f, ok := fieldOf(st.Addr); ok && f.Owner == "mpb.renderFrame" {
+						bad = "the frame's field " + f.Name + " is written (" + w.instrPos(st) + ") after the frame was sent: flush may read the frame without it (a lost error / shutdown step) and races with the write"
+					}
 				}
 			}
 			if c != 1 {
@@ -1518,7 +1526,9 @@ func lcAddMatched(w *World, a *commOp, dones []*commOp) bool {
 					good = false
 				}
 			})
-			if good && n > 0 {
+			// ... and the Add comes first: a goroutine that is started before its Add can reach Done with the
+			// counter still at zero (negative counter panic, or the Wait returns before the goroutines ran)
+			if good && n > 0 && (call.Block() == l.Header || call.Block().Dominates(l.Header)) && !l.Blocks[call.Block()] {
 				return true
 			}
 		}
